@@ -1,5 +1,5 @@
 /-
-  C20: tie to the source TEXT.  `Generated.src_segments2vcf_row`, `src_export_bed_row`, `src_verify_sample_sex`,
+  C20: tie to the source TEXT.  `Generated.src_segments2vcf_row`, `src_export_bed_row`, `src_export_verify_sample_sex`,
   `src_cmd_export_bed_label` are re-translated from /repo's Python on every run (harness/exprtrans.py, ROW-wise
   reading; extractor harness/extractors/exprs_export.py).  These theorems state that the hand-written model of
   `export vcf` / `export bed` and of the command-line glue IS what those function bodies compute, for all arguments.
